@@ -37,6 +37,9 @@ type DesignRun struct {
 	Workers     int
 	Timeout     time.Duration
 	Note        string
+	// Expect: negative control. The configuration switches one repair / rule of the model off and MUST violate one
+	// of the named invariants (comma separated); otherwise the model has lost the sensitivity the positive run relies on.
+	Expect string
 }
 
 type GenSpec struct {
@@ -520,6 +523,15 @@ func (r *SeqRun) design() {
 		}
 		run := runTLC(d.Module, d.Cfg, d.Workers, d.Workers == 1, nil, nil, d.Timeout, r.Scratch)
 		rec := map[string]any{"module": d.Module, "cfg": d.Cfg, "generated": run.Generated, "distinct": run.Distinct, "wall_s": run.Wall, "note": d.Note}
+		if d.Expect != "" {
+			rec["negative_control"], rec["expected_violation"], rec["violated"] = true, d.Expect, run.InvViol
+			if run.Infra != nil || run.OK || run.InvViol == "" || !strings.Contains(","+d.Expect+",", ","+run.InvViol+",") {
+				r.infra("negative control %s/%s: expected a violation of %s, got %q (infra=%v): the model lost its sensitivity", d.Module, d.Cfg, d.Expect, run.InvViol, run.Infra)
+				r.DesignOK = false
+			}
+			r.Design = append(r.Design, rec)
+			continue
+		}
 		if run.Infra != nil {
 			r.infra("design %s/%s: %v", d.Module, d.Cfg, run.Infra)
 			rec["error"] = run.Infra.Error()
